@@ -118,6 +118,7 @@ type c06Case struct {
 	Certs   []c06Cert `json:"certs"`
 	Reqs    []c06Req  `json:"reqs"`
 	Trailer int       `json:"trailer,omitempty"` // 0 none; malformed message sent after the last request (see c06Trailer)
+	Deliv   int       `json:"deliv,omitempty"`   // how every connection hands bytes to its reader: 0 whatever is buffered; 1 one byte per Read; 2 keyed chunks of 1..7 bytes; +4: the last buffered bytes of a closed stream come together with io.EOF (as tubes do)
 }
 
 // ---------------------------------------------------------------------------
@@ -380,12 +381,14 @@ type c06End struct {
 	in, out  *c06Half
 	dmu      sync.Mutex
 	deadline time.Time
+	deliv    int    // delivery pattern (c06Case.Deliv)
+	nread    uint64 // Read calls that returned data so far (keys the chunk sizes)
 }
 
-func c06Pipe() (*c06End, *c06End) {
+func c06Pipe(deliv int) (*c06End, *c06End) {
 	a := &c06Half{wake: make(chan struct{}, 1)}
 	b := &c06Half{wake: make(chan struct{}, 1)}
-	return &c06End{in: a, out: b}, &c06End{in: b, out: a}
+	return &c06End{in: a, out: b, deliv: deliv}, &c06End{in: b, out: a, deliv: deliv}
 }
 
 func (e *c06End) Read(p []byte) (int, error) {
@@ -400,10 +403,26 @@ func (e *c06End) Read(p []byte) (int, error) {
 			return 0, io.ErrClosedPipe
 		}
 		if len(h.buf) > 0 {
-			n := copy(p, h.buf)
+			// an io.Reader may return fewer bytes than asked for, and may return the last bytes together with io.EOF
+			lim := len(p)
+			switch e.deliv & 3 {
+			case 1:
+				lim = 1
+			case 2:
+				lim = 1 + int(vlib.Fill(e.nread, 1)[0])%7
+			}
+			if lim > len(p) {
+				lim = len(p)
+			}
+			e.nread++
+			n := copy(p[:lim], h.buf)
 			h.buf = h.buf[n:]
+			var err error
+			if e.deliv&4 != 0 && h.wclosed && len(h.buf) == 0 {
+				err = io.EOF
+			}
 			h.mu.Unlock()
-			return n, nil
+			return n, err
 		}
 		if h.wclosed {
 			h.mu.Unlock()
@@ -592,7 +611,7 @@ func (w *c06World) setup(u core.URL, verify AdditionalVerifyCallback) (net.Conn,
 		w.log(c06Ev{Kind: "setup", Note: "fail-late"})
 		return nil, errors.New("c06: user authorization failed")
 	}
-	pEnd, tEnd := c06Pipe()
+	pEnd, tEnd := c06Pipe(w.c.Deliv)
 	w.mu.Lock()
 	idx := len(w.pEnds)
 	w.pEnds = append(w.pEnds, pEnd)
@@ -721,7 +740,7 @@ func (w *c06World) readAnswers(c net.Conn) {
 
 // scenario runs inside the bubble.
 func (w *c06World) scenario() {
-	dP, dD := c06Pipe() // principal's end, delegate's end
+	dP, dD := c06Pipe(w.c.Deliv) // principal's end, delegate's end
 	w.wg.Add(1)
 	go func() {
 		defer w.wg.Done()
@@ -1301,6 +1320,7 @@ func c06Gen(t *rapid.T) c06Case {
 	if rapid.IntRange(0, 4).Draw(t, "has-trailer") == 0 {
 		c.Trailer = rapid.IntRange(1, 4).Draw(t, "trailer")
 	}
+	c.Deliv = rapid.SampledFrom([]int{0, 0, 0, 1, 2, 2, 4, 5, 6}).Draw(t, "delivery")
 	return c
 }
 
